@@ -19,24 +19,46 @@ class Inconclusive(Exception):
     """The check could not encode the tree (overlay drift, build failure, model invalid...)."""
 
 
-# (file, exact anchor line, replacement text). Anchors are whole lines.
-USE_SUBSTITUTIONS = [
-    ("src/db/cached_database/block_history_cache.rs",
-     "use std::collections::BTreeMap;",
-     "#[cfg(kani)]\nuse crate::verif_models::BTreeMap;\n#[cfg(not(kani))]\nuse std::collections::BTreeMap;"),
-    ("src/db/database/block_database.rs",
-     "use std::collections::BTreeMap;",
-     "#[cfg(kani)]\nuse crate::verif_models::BTreeMap;\n#[cfg(not(kani))]\nuse std::collections::BTreeMap;"),
-    ("src/db/cached_database/block_cached_database.rs",
-     "use std::collections::{HashMap, HashSet};",
-     "#[cfg(kani)]\nuse crate::verif_models::{HashMap, HashSet};\n#[cfg(not(kani))]\nuse std::collections::{HashMap, HashSet};"),
-    ("src/global/database.rs",
-     "use std::collections::HashMap;",
-     "#[cfg(kani)]\nuse crate::verif_models::HashMap;\n#[cfg(not(kani))]\nuse std::collections::HashMap;"),
-    ("src/global/shared_data.rs",
-     "use std::sync::{RwLock, RwLockReadGuard};",
-     "#[cfg(kani)]\nuse crate::verif_models::{RwLock, RwLockReadGuard};\n#[cfg(not(kani))]\nuse std::sync::{RwLock, RwLockReadGuard};"),
+# Files whose std containers / lock are replaced by the models, and the names the models provide.
+# Any `use std::collections::...;` / `use std::sync::...;` line of these files is rewritten: the
+# names the model provides come from crate::verif_models under cfg(kani), everything else (and
+# everything under cfg(not(kani))) stays on std. A file without such a line is overlay drift.
+MODEL_USES = [
+    ("src/db/cached_database/block_history_cache.rs", "std::collections", {"BTreeMap"}),
+    ("src/db/database/block_database.rs", "std::collections", {"BTreeMap"}),
+    ("src/db/cached_database/block_cached_database.rs", "std::collections", {"HashMap", "HashSet"}),
+    ("src/global/database.rs", "std::collections", {"HashMap"}),
+    ("src/global/shared_data.rs", "std::sync", {"RwLock", "RwLockReadGuard", "RwLockWriteGuard"}),
 ]
+
+
+def _rewrite_uses(path, std_path, model_names):
+    src = open(path).read()
+    pat = re.compile(r"^use " + re.escape(std_path) + r"::(\{[^}]*\}|\w+);[ \t]*$", re.M)
+    hits = list(pat.finditer(src))
+    # only the file header counts (a `use` inside `mod tests` must stay untouched)
+    tests_at = src.find("#[cfg(test)]")
+    hits = [m for m in hits if tests_at < 0 or m.start() < tests_at]
+    if not hits:
+        raise Inconclusive(f"overlay drift: no `use {std_path}::...;` line in {path}")
+    found_model = False
+    out = src
+    for m in reversed(hits):
+        names = [n.strip() for n in m.group(1).strip("{}").split(",") if n.strip()]
+        mod = [n for n in names if n in model_names]
+        rest = [n for n in names if n not in model_names]
+        if not mod:
+            continue
+        found_model = True
+        rep = "#[cfg(kani)]\nuse crate::verif_models::{" + ", ".join(mod) + "};\n"
+        if rest:
+            rep += "#[cfg(kani)]\nuse " + std_path + "::{" + ", ".join(rest) + "};\n"
+        rep += "#[cfg(not(kani))]\n" + m.group(0)
+        out = out[:m.start()] + rep + out[m.end():]
+    if not found_model:
+        raise Inconclusive(f"overlay drift: {path} imports none of {sorted(model_names)} from {std_path}")
+    open(path, "w").write(out)
+
 
 # call-site stub (DESIGN.md §2.3 item 5): only under cfg(kani)
 CALLSITE_STUBS = [
@@ -101,10 +123,10 @@ def _replace_line(path, anchor, replacement):
     open(path, "w").write("\n".join(lines))
 
 
-def apply_overlay(root, cap=3, hcap=3, with_harness=True, kani=True):
+def apply_overlay(root, cap=3, hcap=3, with_harness=True, kani=True, rcap=4, kmax=8, vmax=40):
     """Apply the overlay to the scratch copy at `root`."""
-    for rel, anchor, repl in USE_SUBSTITUTIONS:
-        _replace_line(os.path.join(root, rel), anchor, repl)
+    for rel, std_path, names in MODEL_USES:
+        _rewrite_uses(os.path.join(root, rel), std_path, names)
 
     # models
     models = open(os.path.join(VERIF, "models", "verif_models.rs")).read()
@@ -133,7 +155,9 @@ def apply_overlay(root, cap=3, hcap=3, with_harness=True, kani=True):
     s = open(cargo).read()
     if "[patch.crates-io]" in s:
         raise Inconclusive("overlay drift: Cargo.toml already has a [patch.crates-io] section")
-    s += f'\n[patch.crates-io]\nrocksdb = {{ path = "{os.path.join(VERIF, "models", "rocksdb")}" }}\n'
+    model_dst = os.path.join(os.path.dirname(root.rstrip("/")), "rocksdb_model")
+    generate_rocksdb_model(model_dst, rcap, kmax, vmax)
+    s += f'\n[patch.crates-io]\nrocksdb = {{ path = "{model_dst}" }}\n'
     open(cargo, "w").write(s)
 
     # harness modules appended to the real source files
@@ -151,12 +175,23 @@ def apply_overlay(root, cap=3, hcap=3, with_harness=True, kani=True):
                 out.write(open(os.path.join(hdir, f)).read())
 
 
-def make_scratch(tag, cap=3, hcap=3, with_harness=True):
+def generate_rocksdb_model(dst, rcap=4, kmax=8, vmax=40):
+    """Copy /verif/models/rocksdb to `dst` with the capacity constants substituted."""
+    src = os.path.join(VERIF, "models", "rocksdb")
+    shutil.rmtree(dst, ignore_errors=True)
+    os.makedirs(os.path.join(dst, "src"))
+    shutil.copy(os.path.join(src, "Cargo.toml"), os.path.join(dst, "Cargo.toml"))
+    lib = open(os.path.join(src, "src", "lib.rs")).read()
+    lib = lib.replace("@RCAP@", str(rcap)).replace("@KMAX@", str(kmax)).replace("@VMAX@", str(vmax))
+    open(os.path.join(dst, "src", "lib.rs"), "w").write(lib)
+
+
+def make_scratch(tag, cap=3, hcap=3, with_harness=True, rcap=4, kmax=8, vmax=40):
     base = os.environ.get("VERIF_SCRATCH_BASE", tempfile.gettempdir())
     root = tempfile.mkdtemp(prefix=f"verif-scratch-{tag}-", dir=base)
     dst = os.path.join(root, "repo")
     copy_repo(dst)
-    apply_overlay(dst, cap=cap, hcap=hcap, with_harness=with_harness)
+    apply_overlay(dst, cap=cap, hcap=hcap, with_harness=with_harness, rcap=rcap, kmax=kmax, vmax=vmax)
     return root, dst
 
 
